@@ -219,9 +219,11 @@ theorem simplifyCore_fun (me : Event) (h : ∀ p ∈ me, selfIntervened p.1 = fa
     obtain ⟨q, hq, hk⟩ := removeRepeated_key _ p hp
     rw [← hk]; exact ((hsplit₂ q).1 hq).2
   have hred := reduceReflexive_plain _ hreflkeys
-  have hredkeys : ∀ p ∈ reducePlain (removeRepeated (splitReflexive me).1) [], p.1.isCf = false := by
+  have hredkeys : ∀ p ∈ dropNone (reducePlain (removeRepeated (splitReflexive me).1) []), p.1.isCf = false := by
     intro p hp
-    rcases reducePlain_key _ _ p hp with ⟨q, hq, _⟩ | ⟨q, hq, hk⟩
+    obtain ⟨p', hp', hk'⟩ := dropNone_key _ p hp
+    rw [← hk']
+    rcases reducePlain_key _ _ p' hp' with ⟨q, hq, _⟩ | ⟨q, hq, hk⟩
     · cases hq
     · rw [← hk]; exact hreflkeys q hq
   unfold simplifyCore at hc
@@ -235,7 +237,7 @@ theorem simplifyCore_fun (me : Event) (h : ∀ p ∈ me, selfIntervened p.1 = fa
     | false =>
       simp only [Bool.false_eq_true, ↓reduceIte] at hc
       cases h2 : anyInconsistent (removeRepeated (splitReflexive me).2)
-          (reducePlain (removeRepeated (splitReflexive me).1) []) with
+          (dropNone (reducePlain (removeRepeated (splitReflexive me).1) [])) with
       | error e => rw [h2] at hc; cases hc
       | ok b2 =>
         rw [h2] at hc
@@ -247,7 +249,7 @@ theorem simplifyCore_fun (me : Event) (h : ∀ p ∈ me, selfIntervened p.1 = fa
           | error e => rw [ha] at hc; cases hc
           | ok a =>
             rw [ha] at hc
-            cases hb : popAll (reducePlain (removeRepeated (splitReflexive me).1) []) with
+            cases hb : popAll (dropNone (reducePlain (removeRepeated (splitReflexive me).1) [])) with
             | error e => rw [hb] at hc; cases hc
             | ok b =>
               rw [hb] at hc
@@ -267,7 +269,9 @@ theorem simplifyCore_fun (me : Event) (h : ∀ p ∈ me, selfIntervened p.1 = fa
                 have a2 := hredkeys _ hp
                 simp only at a1 a2
                 rw [a1] at a2; cases a2
-              · have := assoc_unique _ (err_keysNodup_reducePlain _ [] (by simp [KeysNodup])) k _ _ hp hp'
+              · have := assoc_unique _ (by
+                  rw [dropNone_keys]
+                  exact err_keysNodup_reducePlain _ [] (by simp [KeysNodup])) k _ _ hp hp'
                 simp only [List.cons.injEq] at this
                 exact this.1
 
@@ -652,6 +656,16 @@ theorem ctfTR_total_of_cover (target : MG Name) (ds : List Domain) (o c : Event)
     · intro h0; rw [h0] at hq0; cases hq0
     · intro q hq; exact (hfacts.var hDn q hq).1
     · exact ⟨q0, hq0, by rw [hq0v, hp0v]; exact hstrict p0 (List.mem_append_left _ hp0)⟩
+    · intro q hq
+      cases hsi : selfIntervened q.1 with
+      | false => rfl
+      | true =>
+        exfalso
+        unfold selfIntervened at hsi
+        obtain ⟨i, hi, hin⟩ := List.any_eq_true.1 hsi
+        have hedge := (hfacts.var hDn q hq).2.2.2.2 i hi
+        rw [show i.name = q.1.name by simpa using hin] at hedge
+        exact hloop _ hedge
     · intro q hq i hi
       obtain ⟨p', hp', hpn', hpv', _⟩ := hfacts.value q hq i hi
       obtain ⟨p, hp, hpn, hpv⟩ := hrel.of_lk p' hp'
